@@ -71,8 +71,8 @@ def opRrt : RM Res := do
   let step ← rF
   let _maxTry ← rN
   let cancel ← rB
-  let _f ← rJ6
-  let _t ← rJ6
+  let f ← rJ6
+  let t ← rJ6
   expect "=>"
   let tag ← next
   if tag == "panic" then pure (panicRes "plan_rrt")
@@ -85,7 +85,9 @@ def opRrt : RM Res := do
     let first := rows.head?.map (·.1)
     let last := rows.getLast?.map (·.1)
     let coll := rows.find? (fun (_, c, _) => c)
-    let outl := rows.find? (fun (_, _, l) => !l)
+    -- limits as stated in the case line (the model's own constraint object), besides the verdict of the library's object
+    let lim : Constraints Float := Constraints.mk' f t 0.0
+    let outl := rows.find? (fun (q, _, l) => !l || !lim.compliant q)
     let preds := [P "C13.endpoints" ((match first, last with
                       | some a, some b => bitEqJ6 a start && bitEqJ6 b goal
                       | _, _ => false), s!"path starts with {first.map showJ6} ends with {last.map showJ6}"),
@@ -188,7 +190,8 @@ def opPlan : RM Res := do
     let mut preds : List (String × Bool × String) := []
     let bad := wps.find? (·.collides)
     preds := preds ++ [P "C12.collision_free" (bad.isNone, s!"waypoint {bad.map (fun w => showJ6 w.joints)} is reported colliding by the same robot")]
-    let outl := wps.find? (fun w => !w.compliant)
+    -- the library object's verdict AND the limits as stated in the case line (the model's own constraint object)
+    let outl := wps.find? (fun w => !w.compliant || (match k.constraints with | some cc => !cc.compliant w.joints | none => false))
     preds := preds ++ [P "C12.limits" (outl.isNone, s!"waypoint {outl.map (fun w => showJ6 w.joints)} is outside the joint limits")]
     preds := preds ++ [P "C12.starts_at_from" ((match wps.head? with | some w => bitEqJ6 w.joints from_ | none => false), s!"path starts at {(wps.head?).map (fun w => showJ6 w.joints)}, requested start {showJ6 from_}")]
     preds := preds ++ [P "C12.onboarding_flags" (onb.all (fun w => w.flags == flagOnboarding) && !cart.isEmpty, "waypoints before the landing are not flagged ONBOARDING, or there is no landing waypoint")]
